@@ -502,6 +502,25 @@ func (fc *FnCtx) evalCall(x *ECall, env *Env) Val {
 		return boolVal(fmt.Sprintf("(and (forall ((%s Int)) (! (=> (or (< %s (+ %s %s)) (>= %s (+ %s %s))) (= (select (select %s %s) %s) (select (select %s %s) %s))) :pattern ((select (select %s %s) %s)))) (forall ((%s Int)) (! (=> (not (= %s %s)) (= (select %s %s) (select %s %s))) :pattern ((select %s %s)))))",
 			j, j, b.C[1], lo, j, b.C[1], hi, an, b.C[0], j, ao, b.C[0], j, an, b.C[0], j,
 			r, r, b.C[0], an, r, ao, r, an, r))
+	case "typeof":
+		// typeof(x): dynamic type tag of an interface value, or the static type of a non-interface value
+		v := fc.evalExpr(x.Args[0], env)
+		if v.K == KIface {
+			return intVal(v.C[0])
+		}
+		return intVal(fmt.Sprint(fc.e.typeTag(v.T)))
+	case "asptr":
+		// asptr(x, T): the *T held by interface value x (meaningful when istype holds)
+		v := fc.evalExpr(x.Args[0], env)
+		id, ok := x.Args[1].(*EIdent)
+		if !ok || v.K != KIface {
+			fc.fail("asptr(x, T) expects an interface value and a type name")
+		}
+		t := fc.e.lookupType("*" + id.Name)
+		if t == nil {
+			fc.fail("asptr: unknown type %q", id.Name)
+		}
+		return Val{K: KPtr, T: t, C: []string{v.C[1]}}
 	case "strlt":
 		// strlt(a, b): a sorts before b (octet-wise lexicographic order, as Go's < on strings)
 		a := fc.evalExpr(x.Args[0], env)
